@@ -43,6 +43,12 @@
 //     (entry-modified-after-marker); a store that returns holding the lock is
 //     lock-held-after-store-returned.
 //
+//  10. lock-file histories (lockhist.go, partLockHist, `--only 1000000+j`): the REAL filelock locker
+//     with a shortened timeout on a disk cache whose lock files are absent / fresh / 59 min / 61 min /
+//     2 h / 1 year old, holders (a writer stopped at a gate mid-store, a reader stopped under its
+//     shared lock) that hold LONGER than the timeout, contending stores and readers, a waiter that
+//     takes over, readers that verified earlier and read again later.
+//
 // Oracle (implementation only): a load is "not cached", content whose files equal the pinned
 // content, or a digest-mismatch error — never other content; store returned nil ⇒ next load is a
 // hit; a failed/interrupted store is never a hit by itself; a later store repairs.
@@ -536,7 +542,11 @@ type world struct {
 }
 
 func newWorld(m mod, init map[string]string) *world {
-	mem := storagemem.NewReadWriteBucket()
+	return newWorldOn(storagemem.NewReadWriteBucket(), m, init)
+}
+
+// newWorldOn: the same over any bucket that behaves like a directory (lockhist.go: a real one).
+func newWorldOn(mem storage.ReadWriteBucket, m mod, init map[string]string) *world {
 	for p, c := range init {
 		must(bk.PutString(ctx, mem, m.dirPath+"/"+p, c))
 	}
@@ -1362,7 +1372,13 @@ func partMulti(run *hx.Run, idx int, m mod, r *hx.Rand) {
 		}
 		// oracle: some store returned nil ⇒ the entry loads with exactly the pinned files;
 		// whatever happened, a load never serves other content
-		class, files := loadReal(wd.d.mem, m, false)
+		// (on a private copy of the entry as it is now: the reader walks and reads under storagemem's
+		// read lock, and a primitive of a store that has wrongly returned — write-after-store-returned —
+		// arriving in between would deadlock the shared memory bucket and hang the run)
+		wd.d.mu.Lock()
+		now := entryOf(wd.d.mem, m)
+		wd.d.mu.Unlock()
+		class, files := loadReal(bucketOf(m, now), m, false)
 		anyOK := false
 		for _, pc := range pcs {
 			anyOK = anyOK || pc == "ok"
@@ -2312,6 +2328,7 @@ func main() {
 			}
 		}()
 	}
+	partLockHist(run, tmpRoot)
 	// chance observations of the other parts (a primitive after the writer's store returned is a
 	// violation wherever it is seen; partLate is the part that provokes it deterministically)
 	time.Sleep(2 * time.Millisecond)
